@@ -1226,6 +1226,10 @@ func (v *variantCallPacket) UnmarshalBinary(data []byte) (err error) {
 			return oe.WithMessage(err, "unmarshal command object")
 		}
 		p = p[v.CommandObject.Size():]
+	} else {
+		// No command object on the wire, so the Size() must not count one,
+		// for the caller advances by Size() to parse the following fields.
+		v.CommandObject = nil
 	}
 
 	return
